@@ -32,6 +32,7 @@ type World struct {
 	harmlessExtern map[string]bool
 	UsedMirror []string
 	NoInline map[string]bool
+	InterestingTypes []types.Type
 }
 
 func shortPkgPath(path string) string {
